@@ -44,6 +44,9 @@ type inliner struct {
 	argsDead  bool                // the call being bound ends its caller, which has no function literal and no named result
 	deadTaken map[*types.Var]bool // locals of the caller already handed to a parameter of this call
 	curHasLit bool
+
+	deferCands   map[*types.Func]*ast.FuncDecl // helpers with recover(): inlined only as the body of a deferred literal
+	deferInlined []*types.Func
 }
 
 // FuncInventory lists "pkgpath.Func" / "pkgpath.Type.Method" for all first-party declarations.
@@ -63,7 +66,7 @@ func (p *Program) InlineNewHelpers(baseline *Baseline) {
 	for _, pkg := range p.All {
 		in := &inliner{prog: p, pkg: pkg, info: pkg.TypesInfo, cands: map[*types.Func]*ast.FuncDecl{}, remaining: map[*types.Func]int{}, hasDefer: map[*types.Func]bool{}, closureFn: map[*types.Var]*types.Func{}}
 		in.known = func(q string, e ast.Expr) bool { return baseline.Locals[q][exprKey(pkg.TypesInfo, e)] }
-		in.norm = &normaliser{p: p, pkg: pkg, info: pkg.TypesInfo, pure: map[*types.Func]int{}, in: in}
+		in.norm = &normaliser{p: p, pkg: pkg, info: pkg.TypesInfo, pure: map[*types.Func]int{}, in: in, base: baseline}
 		// a function that took the place of a method of the inventory (method turned into a function
 		// with the receiver as a parameter) is that method under another spelling, not an extracted helper
 		stoodIn := map[*ast.FuncDecl]bool{}
@@ -88,7 +91,17 @@ func (p *Program) InlineNewHelpers(baseline *Baseline) {
 				continue
 			}
 			obj, _ := in.info.Defs[fd.Name].(*types.Func)
-			if obj == nil || !in.inlinable(fd, obj) {
+			if obj == nil {
+				continue
+			}
+			if !in.inlinable(fd, obj) {
+				// a result-less helper that calls recover: inlinable where it is deferred directly
+				if sig := obj.Type().(*types.Signature); sig.Results().Len() == 0 && in.inlinableWith(fd, obj, true) {
+					if in.deferCands == nil {
+						in.deferCands = map[*types.Func]*ast.FuncDecl{}
+					}
+					in.deferCands[obj] = fd
+				}
 				continue
 			}
 			in.cands[obj] = fd
@@ -132,6 +145,29 @@ func (p *Program) InlineNewHelpers(baseline *Baseline) {
 				return true
 			})
 		}
+		// deferred helpers: hidden when no reference is left
+		for _, f := range in.deferInlined {
+			hd := in.deferCands[f]
+			if hd == nil || p.hidden[hd] {
+				continue
+			}
+			left := 0
+			for _, fd := range p.AllFuncDeclsRaw(pkg) {
+				if fd == hd {
+					continue
+				}
+				ast.Inspect(fd.Body, func(n ast.Node) bool {
+					if id, ok := n.(*ast.Ident); ok && in.info.Uses[id] == types.Object(f) {
+						left++
+					}
+					return true
+				})
+			}
+			if left == 0 {
+				p.hidden[hd] = true
+				in.Inlined = append(in.Inlined, FuncName(hd))
+			}
+		}
 		for f, fd := range in.cands {
 			if refs[f] == 0 && before[f] > 0 {
 				p.hidden[fd] = true
@@ -142,6 +178,15 @@ func (p *Program) InlineNewHelpers(baseline *Baseline) {
 		if len(in.Inlined) > 0 {
 			for _, fd := range p.AllFuncDeclsRaw(pkg) {
 				if !p.hidden[fd] {
+					in.norm.canonCompare(fd) // `*(&x)` left by pointer arguments
+					// a state struct handed from phase to phase is, with the phases inlined, a bundle of locals
+					if in.norm.scalarReplace(fd) {
+						for round := 0; round < 3; round++ {
+							if !in.norm.substituteLocals(fd, pkg.PkgPath+"."+FuncName(fd), baseline.Locals[pkg.PkgPath+"."+FuncName(fd)]) {
+								break
+							}
+						}
+					}
 					// a tagged switch that came in with an inlined body is new to this function
 					in.norm.canonSwitch(fd, baseline.Tags[pkg.PkgPath+"."+FuncName(fd)])
 					in.norm.coalesceCopies(fd) // inside the inlined block, before `x := y; if …` can become an if with init
@@ -158,6 +203,12 @@ func (p *Program) InlineNewHelpers(baseline *Baseline) {
 }
 
 func (in *inliner) inlinable(fd *ast.FuncDecl, obj *types.Func) bool {
+	return in.inlinableWith(fd, obj, false)
+}
+
+// inlinableWith: allowRecover admits a helper that calls recover - such a helper can only stand in a
+// defer statement, where it is inlined as the body of a deferred function literal.
+func (in *inliner) inlinableWith(fd *ast.FuncDecl, obj *types.Func, allowRecover bool) bool {
 	if fd.Body == nil {
 		return false
 	}
@@ -184,7 +235,7 @@ func (in *inliner) inlinable(fd *ast.FuncDecl, obj *types.Func) bool {
 			}
 		case *ast.CallExpr:
 			if id, isID := x.Fun.(*ast.Ident); isID {
-				if b, isB := in.info.Uses[id].(*types.Builtin); isB && b.Name() == "recover" {
+				if b, isB := in.info.Uses[id].(*types.Builtin); isB && b.Name() == "recover" && !allowRecover {
 					ok = false
 				}
 				if f, isF := in.info.Uses[id].(*types.Func); isF && f == obj {
@@ -559,6 +610,14 @@ func (in *inliner) rewriteBody(fd *ast.FuncDecl) bool {
 		if c.Name() == "Init" || c.Name() == "Post" {
 			return true // handled with the enclosing statement (a block cannot stand there)
 		}
+		// `defer helper(args)` with a helper that recovers: `defer func() { <helper body> }()`
+		if d, isDefer := stmt.(*ast.DeferStmt); isDefer {
+			if rep := in.inlineDefer(d, self); rep != nil {
+				c.Replace(rep)
+				changed = true
+			}
+			return true
+		}
 		// `v, err := helper(); if err != nil { ... }`: the check moves to the helper's return sites
 		if as, isAssign := stmt.(*ast.AssignStmt); isAssign && c.Index() >= 0 {
 			if list := stmtList(c.Parent()); list != nil && c.Index()+1 < len(list) {
@@ -873,6 +932,48 @@ func countReturns(body ast.Node) int {
 		return true
 	})
 	return n
+}
+
+// inlineDefer turns `defer h(args)`, h a result-less new helper that calls recover, into the binding of its
+// arguments (they are evaluated when the defer statement runs) followed by `defer func() { body }()`.
+func (in *inliner) inlineDefer(d *ast.DeferStmt, self *types.Func) ast.Stmt {
+	var id *ast.Ident
+	var recv ast.Expr
+	switch f := d.Call.Fun.(type) {
+	case *ast.Ident:
+		id = f
+	case *ast.SelectorExpr:
+		id = f.Sel
+		if sel := in.info.Selections[f]; sel != nil && sel.Kind() == types.MethodVal && len(sel.Index()) == 1 {
+			recv = f.X
+		}
+	default:
+		return nil
+	}
+	fn, _ := in.info.Uses[id].(*types.Func)
+	if fn == nil || fn == self {
+		return nil
+	}
+	hd := in.deferCands[fn]
+	if hd == nil {
+		return nil
+	}
+	subst, prologue, ok := in.bindParams(hd, d.Call, recv)
+	if !ok {
+		return nil
+	}
+	body := in.clone(hd.Body, subst).(*ast.BlockStmt)
+	lit := &ast.FuncLit{Type: &ast.FuncType{Func: d.Pos(), Params: &ast.FieldList{}}, Body: body}
+	in.info.Types[lit] = types.TypeAndValue{Type: types.NewSignatureType(nil, nil, nil, nil, nil, false)}
+	call := &ast.CallExpr{Fun: lit, Lparen: d.Call.Lparen, Rparen: d.Call.Rparen}
+	in.info.Types[call] = types.TypeAndValue{Type: types.NewTuple()}
+	nd := &ast.DeferStmt{Defer: d.Defer, Call: call}
+	delete(in.deferCands, nil)
+	in.deferInlined = append(in.deferInlined, fn)
+	if len(prologue) == 0 {
+		return nd
+	}
+	return &ast.BlockStmt{Lbrace: d.Pos(), Rbrace: d.End(), List: append(prologue, nd)}
 }
 
 // cloneLHS copies an assignment target of the caller; a defining identifier becomes a use of the same object.
